@@ -10,7 +10,7 @@ from .numfmt import SEP_CONFIGS, render_literal
 SPEC = {
     'rule': ('every ordered pair of the configured units within a kind (332) x source spellings x amounts, under the 4 separator '
              'conventions; every ordered pair across kinds (must not convert); round trips and two-step conversions through variables; '
-             'Q1 +- Q2, Q*n, Q/n, Q1/Q2. Oracle: standard unit definitions as exact fractions (not config.json), relative tolerance 1e-9. '
+             'Q1 +- Q2, Q*n, Q/n, Q1/Q2, also with one unit on both sides in two of its spellings; every third batch on a calculator built by load_from_json from the stock configuration with the two imperial/metric bridges anchored at other units in either direction (same unit definitions). Oracle: standard unit definitions as exact fractions (not config.json), relative tolerance 1e-9. '
              'non-trivial = every case; distinct = distinct (separators, text)'),
     'min_nontrivial': 1500,
     'budget_s': {'quick': 40, 'thorough': 400},
